@@ -149,6 +149,7 @@ func checkC19(c *Ctx, r *Report, tier string) {
 		}
 		r.Check(ok, "C19.R1", fnName(pk), "Peek", c.Pos(pk.Pos()), "returns element 0 of the heap slice")
 	}
+	rawHeapMethodsUnused(c, r, "C19.R1")
 	// R2
 	rev := c.Method("utils", wrapper, "Reverse")
 	if rev == nil {
@@ -195,8 +196,14 @@ func checkC19(c *Ctx, r *Report, tier string) {
 }
 
 // freshSlice: v is a slice freshly allocated in this function (make + copy / append onto nil or fresh).
-func freshSlice(v ssa.Value) (bool, string) {
+func freshSlice(v ssa.Value) (bool, string) { return freshSliceSeen(v, map[ssa.Value]bool{}) }
+
+func freshSliceSeen(v ssa.Value, seen map[ssa.Value]bool) (bool, string) {
 	v = strip(v)
+	if seen[v] {
+		return true, "loop-carried" // a cycle through φ adds no new source
+	}
+	seen[v] = true
 	switch y := v.(type) {
 	case *ssa.MakeSlice:
 		return true, "make"
@@ -207,7 +214,7 @@ func freshSlice(v ssa.Value) (bool, string) {
 			if isNilConst(b) {
 				return true, "append onto nil"
 			}
-			if ok, _ := freshSlice(b); ok {
+			if ok, _ := freshSliceSeen(b, seen); ok {
 				// append(make(T,0,n), src...) is fresh as long as capacity is respected or exceeded (either way a private array)
 				return true, "append onto a fresh slice"
 			}
@@ -218,10 +225,10 @@ func freshSlice(v ssa.Value) (bool, string) {
 		if al, ok := y.X.(*ssa.Alloc); ok && (al.Comment == "makeslice" || al.Comment == "slicelit") {
 			return true, "fresh array"
 		}
-		return freshSlice(y.X)
+		return freshSliceSeen(y.X, seen)
 	case *ssa.Phi:
 		for _, e := range y.Edges {
-			if ok, why := freshSlice(e); !ok {
+			if ok, why := freshSliceSeen(e, seen); !ok {
 				return false, why
 			}
 		}
